@@ -580,6 +580,41 @@ pub fn cases_all(thorough: bool) -> Vec<Case> {
     g1(thorough).into_iter().chain(g2()).chain(g3()).chain(g4()).chain(g5()).chain(g6()).chain(g7()).chain(g8()).collect()
 }
 
+
+/// G9: `x.m(a)` is `(x.m)(a)` also where `m` is a built-in method that a program-declared class inherits
+/// from a built-in class: an instance of such a class is not a value the built-in can work on, and every way
+/// of reaching the method - call syntax, the member taken as a value, the value kept in a variable or in a
+/// field of another object, `super.m` - reports the same TypeError to the same handler.
+fn g9() -> Vec<crate::expect::Expect> {
+    use crate::expect::Expect;
+    let bases: [(&str, &str, &str); 8] = [
+        ("[1, 2]", "push", "3"),
+        ("[1, 2]", "len", ""),
+        ("[1, 2]", "pop", ""),
+        ("\"abc\"", "len", ""),
+        ("\"abc\"", "starts_with", "\"a\""),
+        ("(1, 2)", "len", ""),
+        ("{1: 2}", "insert", "3, 4"),
+        ("{1: 2}", "keys", ""),
+    ];
+    let mut out = Vec::new();
+    for (base, m, args) in bases {
+        let src = format!(
+            "var D = type({base});\n#[constructor(new), derive(D)]\nclass Own {{\n  fn via_super(self) {{ return super.{m}({args}); }}\n  fn via_super_value(self) {{ var b = super.{m}; return b({args}); }}\n}}\n#[constructor(new)]\nclass Holder {{}}\nvar x = Own.new();\nfn show(f) {{ try {{ f(); print(\"completed\"); }} catch e {{ print(type(e)); }} }}\nshow(|| x.{m}({args}));\nshow(|| (x.{m})({args}));\nshow(|| {{ var b = x.{m}; return b({args}); }});\nshow(|| {{ var h = Holder.new(); h.f = x.{m}; return h.f({args}); }});\nshow(|| x.via_super());\nshow(|| x.via_super_value());\nprint(x.derives(D));\n",
+            base = base, m = m, args = args
+        );
+        out.push(Expect {
+            family: "G9_inherited_built_in_methods_by_every_route",
+            request: proto::Request { op: "run".into(), snippets: vec![src], fuel: Some(1_000_000), ..Default::default() },
+            out: vec![vec!["<class TypeError>".to_string(); 6].into_iter().chain(std::iter::once("true".to_string())).collect()],
+            end: vec!["ok".into()],
+            describe: json!({"built_in_value": base, "method": m}),
+            nontrivial: true,
+        });
+    }
+    out
+}
+
 pub fn cases_for_c04(thorough: bool) -> Vec<Case> {
     g1(thorough).into_iter().chain(g2()).chain(g3()).chain(g5()).chain(g6()).collect()
 }
@@ -593,10 +628,17 @@ pub fn run(ctx: &Ctx) -> Report {
     mcheck::fill_report(
         &mut report,
         &stats,
-        "G1: every hierarchy of depth 1-3 where each class independently has method m absent / plain / overriding through super.m() / through super.m taken as a value / through super.m() inside a lambda nested in the method, optionally n calling self.m(), and one of four constructor forms; probed with calls, bound values, wrong arity, unknown members, fields shadowing methods, type and derives on instances of the two most derived classes. G2: static methods and Self through class, instance and subclass instance. G3: classes in local scopes, captured variables, rebound superclass names. G4: every non-class value as superclass, and after each such failed declaration (which had methods of its own) further classes declared at top level and in a function, which have exactly their own and their ancestors' members; deriving built-in error classes. G5: construction, arity, invoke == get-then-call. G6: the receiver of super in instance, static and constructor methods under 5 nestings of the expression and 5 places the class can be declared in, through class, subclass and instances. G7: `derives`, the member every class has from Object, defined anew at each level of a hierarchy of depth 1-3 and found (call, value, super, self call) from that level and every level below. G8: sixteen kinds of value (named function, lambda, closure, bound methods, built-in functions, bound built-in methods, constructor and static method as values, class, instance, number, nil) stored in an instance field named like a method, in a fresh field and in a module attribute, and called with 0-2 arguments by method-call syntax, after taking the member, and through a variable. non-trivial = at least four observations.",
+        "G1: every hierarchy of depth 1-3 where each class independently has method m absent / plain / overriding through super.m() / through super.m taken as a value / through super.m() inside a lambda nested in the method, optionally n calling self.m(), and one of four constructor forms; probed with calls, bound values, wrong arity, unknown members, fields shadowing methods, type and derives on instances of the two most derived classes. G2: static methods and Self through class, instance and subclass instance. G3: classes in local scopes, captured variables, rebound superclass names. G4: every non-class value as superclass, and after each such failed declaration (which had methods of its own) further classes declared at top level and in a function, which have exactly their own and their ancestors' members; deriving built-in error classes. G5: construction, arity, invoke == get-then-call. G6: the receiver of super in instance, static and constructor methods under 5 nestings of the expression and 5 places the class can be declared in, through class, subclass and instances. G7: `derives`, the member every class has from Object, defined anew at each level of a hierarchy of depth 1-3 and found (call, value, super, self call) from that level and every level below. G8: sixteen kinds of value (named function, lambda, closure, bound methods, built-in functions, bound built-in methods, constructor and static method as values, class, instance, number, nil) stored in an instance field named like a method, in a fresh field and in a module attribute, and called with 0-2 arguments by method-call syntax, after taking the member, and through a variable. G9: a built-in method inherited by a program-declared class from a built-in class (eight methods of Vec, String, Tuple, HashMap), reached by call syntax, as a value, through a variable, through a field of another object, through super and through super taken as a value: the same TypeError every way. non-trivial = at least four observations.",
         json!({"hierarchy_depth": 3, "per_class_choices": 40}),
     );
     report.assumptions = vec!["static methods and constructors are looked up on the class they were defined in and on instances, not through subclasses' class objects (Appendix A)".into()];
     report.violations = stats.violations;
+    {
+        let cases = g9();
+        let n = cases.len();
+        let st = crate::expect::run_expect(ctx, &ctx.runner_checked, cases.into_iter(), &|_e, _r| None, &|_e, _p| None);
+        report.cov("G9_programs", json!(n));
+        report.violations.extend(st.violations);
+    }
     report
 }
